@@ -115,6 +115,25 @@ pub fn constants() -> Vec<RefConstant> {
     out
 }
 
+/// The sources of sources.bin.gz: (id, description, url), read without the subject's types.
+pub fn sources() -> Vec<(u64, Option<String>, Option<String>)> {
+    let p = repo_dir().join("db").join("sources.bin.gz");
+    if !p.exists() {
+        return vec![];
+    }
+    let doc: Value = serde_cbor::from_slice(&read_gz(&p)).expect("cbor");
+    let text = |s: &Value, k: &str| get(s, k).and_then(|d| if let Value::Text(t) = d { Some(t.clone()) } else { None });
+    let mut out = Vec::new();
+    if let Some(Value::Array(ss)) = get(&doc, "sources") {
+        for s in ss {
+            if let Some(Value::Integer(i)) = get(s, "id") {
+                out.push((*i as u64, text(s, "description"), text(s, "url")));
+            }
+        }
+    }
+    out
+}
+
 /// Source ids present in sources.bin.gz.
 pub fn source_ids() -> Vec<u64> {
     let p = repo_dir().join("db").join("sources.bin.gz");
